@@ -17,7 +17,7 @@ func configs() []cfg {
 		{id: "C03", pkg: "checks/c03", level: "model_checking", workers: 16, thoroBud: 30 * time.Minute},
 		{id: "C04", pkg: "checks/c04", level: "model_checking", workers: 8, instr: rtmpI, race: true},
 		{id: "C05", pkg: "checks/c05", level: "exploration", workers: 16, thoroBud: 30 * time.Minute},
-		{id: "C06", pkg: "checks/c06", level: "exploration", workers: 16},
+		{id: "C06", pkg: "checks/c06", level: "exploration", workers: 16, thoroBud: 30 * time.Minute},
 		{id: "C07", pkg: "checks/c07", level: "exploration", workers: 16, quickBud: 150 * time.Second, thoroBud: 25 * time.Minute,
 			instr: []instr.PkgRules{
 				{Pkg: "websocket", SyncSwap: true, ChanLock: []string{"mu"}, Export: "websocket/verif_export.go", Ticks: true},
@@ -26,7 +26,7 @@ func configs() []cfg {
 				{Pkg: "errors", Ticks: true},
 			}},
 		{id: "C08", pkg: "checks/c08", level: "fault_enumeration", workers: 16},
-		{id: "C09", pkg: "checks/c09", level: "exploration", workers: 16},
+		{id: "C09", pkg: "checks/c09", level: "exploration", workers: 16, thoroBud: 25 * time.Minute},
 		{id: "C10", pkg: "checks/c10", level: "exploration", workers: 16},
 		{id: "C11", pkg: "checks/c11", level: "exploration", workers: 16},
 		{id: "C12", pkg: "checks/c12", level: "exploration", workers: 16},
@@ -36,12 +36,12 @@ func configs() []cfg {
 			instr: []instr.PkgRules{{Pkg: "websocket", SyncSwap: true, ChanLock: []string{"mu"}, Time: true, Timers: true, Export: "websocket/verif_export.go"}}},
 		{id: "C15", pkg: "checks/c15", level: "model_checking", workers: 16, race: true,
 			instr: []instr.PkgRules{{Pkg: "websocket", SyncSwap: true, ChanLock: []string{"mu"}, Timers: true, Export: "websocket/verif_export.go"}}},
-		{id: "C16", pkg: "checks/c16", level: "fault_enumeration", workers: 16,
+		{id: "C16", pkg: "checks/c16", level: "fault_enumeration", workers: 16, thoroBud: 25 * time.Minute,
 			instr: []instr.PkgRules{{Pkg: "https/acme", Export: "acme/verif_export.go"}}},
 		{id: "C17", pkg: "checks/c17", level: "exploration", workers: 16, thoroBud: 40 * time.Minute},
 		{id: "C18", pkg: "checks/c18", level: "model_checking", workers: 8, race: true,
 			instr: []instr.PkgRules{{Pkg: "logger", SyncSwap: true, Globals: []string{"gCid"}}}},
-		{id: "C19", pkg: "checks/c19", level: "exploration", workers: 16},
+		{id: "C19", pkg: "checks/c19", level: "exploration", workers: 16, thoroBud: 25 * time.Minute},
 		{id: "C20", pkg: "checks/c20", level: "model_checking", workers: 16,
 			instr: []instr.PkgRules{{Pkg: "kxps", SyncSwap: false, Time: true}}},
 	}
